@@ -11,7 +11,7 @@ import (
 func init() { registry["C14"] = checkC14 }
 
 func checkC14(c *Check) {
-	c.Explanation = "Decided by path-sensitive abstract interpretation of the deployment manager's loop function over its SSA (domain: the manager's state field as one of its six constants, the operation channel and the hostname-reservation channel as nil / pending / drained one-shot tokens, flags for teardown requested, teardown started, shutdown requested, hostname failure; start helpers are summarised from their bodies: state := constant, returns a fresh pending operation): (R1) no cluster operation is started while another is pending; (R2) no deploy is started in a state where teardown was requested; (R3) every exit state in which teardown was requested has started the teardown unless shutdown was requested or the hostname reservation failed; the two INVALID STATE panics are unreachable; (R4) each update stores the manifest before any deploy starts and the deploy reads the stored manifest; (R5) the state field is written only by the loop, its two start helpers and the constructor; (R6) the service routes lease-closed to the manager's teardown or releases the reservation of an unmanaged order, releases the reservation and forgets the manager when it is done, creates a manager only on a map miss, and reserved hostnames are released on exit and are the ones reserved; (R7) the hostname service's reserve / can-reserve / release entry points all send the loop a fresh slice of strings.ToLower(name) and the loop keys its map by the received names unchanged."
+	c.Explanation = "Decided by path-sensitive abstract interpretation of the deployment manager's loop function over its SSA (domain: the manager's state field as one of its six constants, the operation channel and the hostname-reservation channel as nil / pending / drained one-shot tokens, flags for teardown requested, teardown started, shutdown requested, hostname failure; start helpers are summarised from their bodies: state := constant, returns a fresh pending operation): (R1) no cluster operation is started while another is pending; (R2) no deploy is started in a state where teardown was requested; (R3) every exit state in which teardown was requested has started the teardown unless shutdown was requested or the hostname reservation failed; the two INVALID STATE panics are unreachable; (R4) each update stores the manifest before any deploy starts and the deploy reads the stored manifest; (R5) the state field is written only by the loop, its two start helpers and the constructor; (R6) the service routes lease-closed to the manager's teardown or releases the reservation of an unmanaged order, releases the reservation and forgets the manager when it is done, creates a manager only on a map miss, and reserved hostnames are released on exit and are the ones reserved; (R7) the hostname service's reserve / can-reserve / release entry points all send the loop a fresh slice of strings.ToLower(name) and the loop keys its map by the received names unchanged. The key a lease's manager is filed under names all five id fields."
 	c.NotDecided = "that Deploy/Teardown of the cluster client terminate; retries inside the teardown"
 	l := c.L
 	run := l.Func("provider/cluster", "deploymentManager", "run")
